@@ -46,7 +46,9 @@
 
     #[test]
     fn verif_oracle_rewrite_equals_specification() {
-        let tables: [&[(&str, &str)]; 4] = [&[], &[("a", "x"), ("ab", "y"), ("c", "")], &[("あい", "z"), ("ｶ", "カ"), ("b", "bb")], &[("aあ", "か"), ("a", "q"), ("bあい", "w")]];
+        let tables: [&[(&str, &str)]; 6] = [&[], &[("a", "x"), ("ab", "y"), ("c", "")], &[("あい", "z"), ("ｶ", "カ"), ("b", "bb")], &[("aあ", "か"), ("a", "q"), ("bあい", "w")],
+            // keys of different length sharing their first (multi-byte) character, the shorter listed first and listed last
+            &[("い", "1"), ("いあ", "2"), ("いあい", "3")], &[("いあい", "3"), ("いあ", "2"), ("い", "1")]];
         let ignores: [&[char]; 2] = [&[], &['Ａ', 'ｶ']];
         let alphabet = ["a", "b", "c", "A", "Ａ", "ǅ", "あ", "い", "ｶ"];
         let mut texts: Vec<String> = vec![String::new()];
